@@ -18,6 +18,8 @@ const SCALAR_NAMES: &[&str] = &["DateTime", "URL", "BigInt", "Json"];
 const FIELD_NAMES: &[&str] = &[
     "name", "title", "body", "count", "score", "createdAt", "url", "active", "email", "rank", "tags", "owner", "author", "items",
     "parent", "children", "status", "role", "kind", "size", "slug", "meta", "first", "last", "peer", "related",
+    // legal GraphQL names that are reserved words elsewhere
+    "default", "new", "delete", "typeof", "class",
 ];
 const ARG_NAMES: &[&str] = &["first", "after", "filter", "order", "id", "q", "limit", "flag"];
 const DESC_WORDS: &[&str] = &["the", "owner", "of", "item", "été", "naïve", "日本語", "größe", "list", "when", "null", "— dash", "ID", "créé"];
